@@ -282,6 +282,10 @@ class TreeToODE(lark.Transformer):
         assignments = []
 
         for si in s[i:]:
+            if isinstance(si, atoms.Comment):
+                # A comment line inside the block stays a comment of the model
+                assignments.append(si)
+                continue
             assignments.extend(find_assignments(si, components=components))
 
         return tuple(assignments)
@@ -323,6 +327,9 @@ class TreeToODE(lark.Transformer):
                 continue
 
             for atom in line:  # State, Parameters or Assignment
+                if isinstance(atom, atoms.Comment):
+                    comments.append(atom)
+                    continue
                 for component in atom.components:
                     group = components[component][mapping[type(atom)]]
                     if isinstance(atom, atoms.Assignment) and atom in group:
